@@ -8,6 +8,8 @@ LEVEL = 'proof'
 
 def run(rep):
     lexical.visitor_deductive(rep)
+    from . import control
+    control.clause_deductive(rep, targets=['yp_generator.YPPrologCompiler.compile_expression', 'yp_generator.YPPrologCompiler.compile_list'])
     enginep.engine_deductive(rep, ['engine.Atom.unify', 'engine.unify', 'engine.Functor.unify', 'engine.get_value'], heap_lemmas=False)
     q = rep.tier == 'quick'
     fw.standin(rep, 's_c16.py', ['run', rep.seed, 300 if q else 5000],
@@ -18,5 +20,7 @@ def run(rep):
                'terms and clause bodies read by the real parser+visitor vs the independent reader', 'grammar-derived programs')
     rep.assumptions += [A['A-EXT-ANTLR'], A['A-CPY-REPR'], A['A-EXT-REDUCE'], A['A-PY-STR']]
     rep.notes.append('unquoteString is verified with a loop invariant (result = the text between the quotes with every backslash removed); every `_` '
-                     'gets a new name x<counter+1> (visitVARIABLE); atoms unify by name (Atom.unify, C02) so they unify across engines; the '
-                     'literal -> AST -> constructor-call mapping (visitTerm, compile_expression) and to_python are decided by the bounded stand-in')
+                     'gets a new name x<counter+1> (visitVARIABLE); atoms unify by name (Atom.unify, C02) so they unify across engines; compile_expression/'
+                     'compile_list emit cexpr(term) and L-LITERAL (induction) shows that these constructor calls build exactly the term the literal '
+                     'denotes (tsem: atoms by name, integers, compound terms, [..] = nested ./2 ending in [], [H|T] = ./2); the token -> AST mapping '
+                     'of visitTerm/visitAtom and to_python are decided by the bounded stand-in')
